@@ -2,6 +2,7 @@ package netsim
 
 import (
 	"bytes"
+	"os"
 	"encoding/hex"
 	"fmt"
 	"io"
@@ -46,6 +47,7 @@ type byzantine struct {
 
 	partSets    map[string]consensus.PartSet // height/psid-hash -> parts seen on the wire
 	partSetKeys map[int64][]string
+	forgedAt    map[string]*forgedInfo // "height/round" of a forged proposal
 	rawBlocks   map[int64][][]byte // height -> complete block encodings seen on the wire (valid proposals of anybody)
 }
 
@@ -64,6 +66,7 @@ type pcItem struct {
 }
 
 type forgedInfo struct {
+	allowed  map[string]bool // part-set hashes a correct validator may legitimately vote for in the forged round
 	property string
 	kind     string
 	invalid  bool // the oracle's independent judgement: must not be accepted
@@ -73,7 +76,7 @@ type forgedInfo struct {
 func newByzantine(s *sim) *byzantine {
 	return &byzantine{s: s, alts: map[int64][]altDecision{}, known: map[string][]byte{}, precommit: map[int64]map[string][]pcItem{},
 		blockTS: map[string]int64{}, blockByH: map[int64][]string{}, bodyVotes: map[int64][]byte{}, forged: map[string]*forgedInfo{},
-		partSets: map[string]consensus.PartSet{}, partSetKeys: map[int64][]string{}, rawBlocks: map[int64][][]byte{}}
+		partSets: map[string]consensus.PartSet{}, partSetKeys: map[int64][]string{}, rawBlocks: map[int64][][]byte{}, forgedAt: map[string]*forgedInfo{}}
 }
 
 var nilBlockID = codec.MustMarshalToBytes(1) // what a nil vote carries as block id: the encoded network id
@@ -519,8 +522,33 @@ func (b *byzantine) maybeForge(src *node, ms []outMsg, out *[]routed) []outMsg {
 	_, _ = psb.Write(forgedBytes)
 	fps := psb.PartSet()
 	b.forged[hex.EncodeToString(fps.ID().Hash)] = info
+	b.forgedAt[fmt.Sprintf("%d/%d", pm.Height, pm.Round)] = info
+	// what a correct validator may still vote for in this round: the proposer's genuine block (its syncer
+	// serves the original parts) or a block already known at this height (a lock / POL from an earlier round)
+	info.allowed = map[string]bool{hex.EncodeToString(pm.BlockPartSetID.Hash): true}
+	for _, a := range b.alts[pm.Height] {
+		if a.psid != nil {
+			info.allowed[hex.EncodeToString(a.psid.Hash)] = true
+		}
+	}
 	s.rc.Fault("byz_forged_block:" + info.kind)
-	s.rc.Event("FORGE n%d h=%d r=%d kind=%s invalid=%v", src.idx, pm.Height, pm.Round, info.kind, info.invalid)
+	s.rc.Event("FORGE n%d h=%d r=%d kind=%s invalid=%v psid=%.12x orig=%.12x", src.idx, pm.Height, pm.Round, info.kind, info.invalid, fps.ID().Hash, pm.BlockPartSetID.Hash)
+	if traceOn {
+		for _, n := range s.nodes {
+			if !n.byz && n.inc != nil && n.inc.alive() && n.inc.bm != nil {
+				bd, derr := n.inc.bm.NewBlockDataFromReader(bytes.NewReader(forgedBytes))
+				s.rc.Event("FORGE-DECODE-TRACE kind=%s err=%v", info.kind, derr)
+				if derr == nil {
+					kind := info.kind
+					_, ierr := n.inc.bm.ImportBlock(bd, 0, func(bc module.BlockCandidate, err error) {
+						fmt.Fprintf(os.Stderr, "FORGE-IMPORT-TRACE kind=%s cb err=%v\n", kind, err)
+					})
+					fmt.Fprintf(os.Stderr, "FORGE-IMPORT-TRACE kind=%s call err=%v\n", kind, ierr)
+				}
+				break
+			}
+		}
+	}
 	// forged proposal + parts, signed by the legitimate proposer
 	np := consensus.NewProposalMessage()
 	np.Height, np.Round, np.BlockPartSetID, np.POLRound, np.NID = pm.Height, pm.Round, fps.ID(), -1, pm.NID
@@ -757,7 +785,12 @@ func (b *byzantine) forgeBlock(src *node, hf *block.V2HeaderFormat, bf *block.V2
 				if _, err := codec.BC.UnmarshalFromBytes(bf.Votes, &c); err != nil || len(c.Items) < 2 {
 					return nil, nil
 				}
-				c.Items = c.Items[:len(c.Items)-1]
+				if t.Permille("forge.vhm.perm", 600) {
+					// same certificate, same median, other byte order: only the hash binding can tell
+					c.Items[0], c.Items[len(c.Items)-1] = c.Items[len(c.Items)-1], c.Items[0]
+				} else {
+					c.Items = c.Items[:len(c.Items)-1]
+				}
 				nb.Votes = codec.BC.MustMarshalToBytes(&c)
 			}
 		case "tx-body-swap":
@@ -810,6 +843,24 @@ func (b *byzantine) forgeBlock(src *node, hf *block.V2HeaderFormat, bf *block.V2
 // onAcceptedVote is called by the oracle for every non-nil vote signed by a
 // correct validator: voting for a block means its import succeeded there.
 func (b *byzantine) onAcceptedVote(n *node, vm *consensus.VoteMessage) {
+	if b.active && vm.Type == consensus.VoteTypePrevote {
+		if fi := b.forgedAt[fmt.Sprintf("%d/%d", vm.Height, vm.Round)]; fi != nil {
+			if vm.BlockPartSetIDAndNTSVoteCount == nil {
+				b.s.rc.Probe("forged_round_prevote_nil:" + fi.kind)
+			} else if fi.invalid && !fi.allowed[hex.EncodeToString(vm.BlockPartSetIDAndNTSVoteCount.Hash)] {
+				// neither the genuine block nor anything known before: the validator built this from the
+				// forged encoding (a decoder that does not bind the body re-encodes it under a new id)
+				class := map[string]string{"C05": "bad-certificate-accepted", "C07": "deviant-block-accepted", "C08": "unbound-or-malformed-block-accepted"}[fi.property]
+				b.s.rc.Violate(class, fi.kind+"/re-encoded", "correct validator n%d prevoted a block in round %d of height %d that is neither the proposer's genuine block nor known before the forged proposal (forgery: %s): it accepted the forged encoding", n.idx, vm.Round, vm.Height, fi.kind)
+				return
+			} else {
+				b.s.rc.Probe("forged_round_prevote_block:" + fi.kind)
+				if traceOn {
+					fmt.Fprintf(os.Stderr, "FORGED-ROUND-VOTE n%d h=%d r=%d psid=%x known_forged=%v\n", n.idx, vm.Height, vm.Round, vm.BlockPartSetIDAndNTSVoteCount.Hash, b.forged[hex.EncodeToString(vm.BlockPartSetIDAndNTSVoteCount.Hash)] != nil)
+				}
+			}
+		}
+	}
 	if !b.active || vm.BlockPartSetIDAndNTSVoteCount == nil {
 		return
 	}
